@@ -5,7 +5,7 @@ from sqimpl import hx
 
 INVALID = ['a = 1\nb = )', 'y = 1; y +', 'x = 1\nx = x + 1\nx ) 5', 'q = 2\n[q,', 'x = x + 1; $', '1 +', 'f(', '(1', '[1,\n2', '{1: 2', 'x =', '1 2', 'a b c', '$', 'x = $', '"abc', '1 + $ + 2', 'for', 'while x',
            ')', '(1))', '1 +\n2 2', 'a[1:2:3]', 'x | f()', '{1:2,,}', 'del x', '%a', '1 ? 2', '[1, 2\n 3', 'x.y', '(a) => a']
-RUNTIME = ['1 / 0', 'undefined_name', 'nofn(1)', '[1,2][5]', '{"a": 1}["b"]', 'pop([])', 'u += 1', '"a" - 1', 'len(1)',
+RUNTIME = ['0 ** 0', '10 ** 1000000', '0 ** (0 - 1)', 'sum([1, None])', 'sum(["a", 1])', '1 / 0', 'undefined_name', 'nofn(1)', '[1,2][5]', '{"a": 1}["b"]', 'pop([])', 'u += 1', '"a" - 1', 'len(1)',
            'x = 1; x.push(2)', 'int("z")']
 VALID = ['len(y)', 'sum(y)', 'max(y)', 'str(x)', 'cfg = {x: y, "n": d}\ncfg', 'list(x, y)', '{x: len(y)}', 'y | sorted | reversed', 'len = 3', 'len([1, 2])', 'str = 1', 'str(2)', 'q = 9', 'q', 'sum = v => 0', 'sum([1, 2])', '1 + 2', 'x = 5', 'x', 'y = [1, 2, 3]', 'y.push(4); y', 'len(y)', 'x = x + 1; x', 'd = {"k": [1]}', 'd["k"].push(2); d',
          'f = n => n * 2', 'f(3)', 'g = n => 1 if n < 2 else n * g(n - 1)', 'g(4)', 'g(30)', 'map([1,2,3], f)', '[1,\n2,\n3]',
@@ -30,7 +30,8 @@ STATEFUL = ['1 / 3', '1 / 4', '10 / 4', '1 / 1048576', '2 / 3 + 1 / 4', 'x / 3',
             '"Total: " + 2.50', '"Total: " + 2.5', 'str(1.0)', 'str(1)', 'str(1.00)', '{1.0: "a"}', '{1: "a"}', '[2.50, 2.5, 2.500]', '0.10 + 0', '0.1 + 0',
             'True', '1', 'False', '0', '[True, 1, False, 0]', '1 / 3 + 1', '(1 + 1) / (1 + 1 + 1)', 'None', '"None"', '1 if 1 / 3 > 0.3 else 2', 'abs(-1 / 3)', 'int(7 / 2)', 'sum([1 / 3, 1 / 3, 1 / 3])']
 
-CALLSITES = ['len([1, 2])', 'str(2)', 'sum([1, 2])', 'max([1, 2])', 'list(1, 2)', 'f2 = v => len(v); [f2([1]), f2([1, 2])]',
+CALLSITES = ['f2 = v => len(v); f2([1])', 'f2([1, 2])', 'len = v => 0', 'cs = w => sum([1, 2]); cs(0)', 'cs(0)', 'sum = v => 7', 'str = v => "S"', 'h3 = v => str(v); h3(1)', 'h3(2)',
+             'len([1, 2])', 'str(2)', 'sum([1, 2])', 'max([1, 2])', 'list(1, 2)', 'f2 = v => len(v); [f2([1]), f2([1, 2])]',
              'map([[1], [2, 3]], v => len(v))', 'len("abc") + len([1])']
 
 NAMESRC = ['a + b', 'f(x, %my var% )', '"str" + name # comment', 'for x in y', 'a $ b', 'x = y.z(w)', '%a b% + %c', '1 2 3', 'a\nb;c']
